@@ -486,6 +486,30 @@ pub fn run(ctx: &mut Ctx) {
   ] {
     path_case(ctx, &b0, p);
   }
+  // every proper prefix and suffix of every valid name, and the names with the unit suffix dropped
+  // or exchanged (an alias such as "signal.theta" must not be accepted)
+  for p in PATHS.iter() {
+    let cs: Vec<char> = p.chars().collect();
+    for k in 1..cs.len() {
+      let pre: String = cs[..k].iter().collect();
+      let suf: String = cs[k..].iter().collect();
+      if !PATHS.contains(&pre.as_str()) {
+        path_case(ctx, &b0, &pre);
+      }
+      if !PATHS.contains(&suf.as_str()) {
+        path_case(ctx, &b0, &suf);
+      }
+    }
+    if let Some(i) = p.rfind('_') {
+      let stem = &p[..i];
+      for unit in ["", "_deg", "_rad", "_um", "_nm", "_mm", "_m", "_thz", "_hz", "_c", "_k", "_mw", "_w"] {
+        let cand = format!("{}{}", stem, unit);
+        if !PATHS.contains(&cand.as_str()) {
+          path_case(ctx, &b0, &cand);
+        }
+      }
+    }
+  }
   let nmut = if ctx.thorough { ctx.n * 4 } else { ctx.n / 2 };
   for _ in 0..nmut {
     let which = *ctx.rng.pick(&PATHS);
